@@ -384,6 +384,79 @@ func genTable(cfg Config, emit0 func(string, bool, []string)) {
 			// iterator closed while it still has unobserved deletions: nothing may stay
 			// retained once the collector has handled the triggers the close produced
 			nit := 1 + r.IntN(2)
+			if c%40 == 25 {
+				// iterators created and closed in turn: closing the OLDER of two open iterators and creating a
+				// third one must not disturb the survivor; an iterator driven through a write transaction on
+				// its own table that is then aborted still gets the later deletions; closing the last
+				// iterator of a table whose initializer is pending leaves the initializer pending
+				g.add("wtxn m")
+				g.add("reginit m init0")
+				g.add("changes m")
+				g.add("changes m")
+				for i := 0; i < 4; i++ {
+					g.add("ins m %s %d 0 - - 0 %d", hx([]byte{'k', byte('0' + i)}), i, i+1)
+				}
+				g.add("commit")
+				g.nsnap++
+				g.add("rtxn")
+				g.nsnap++
+				g.add("next 0 s%d -1", g.nsnap-1)
+				g.add("next 1 s%d -1", g.nsnap-1)
+				g.add("cclose 0")
+				g.add("wtxn m")
+				g.add("changes m")
+				g.add("commit")
+				g.nsnap++
+				g.add("rtxn")
+				g.nsnap++
+				g.add("next 2 s%d -1", g.nsnap-1)
+				g.add("wtxn m")
+				g.add("del m %s", hx([]byte("k0")))
+				g.add("commit")
+				g.nsnap++
+				g.add("rtxn")
+				g.nsnap++
+				g.add("next 2 s%d -1", g.nsnap-1)
+				g.add("gcidle")
+				g.add("glen - m")
+				g.add("next 1 s%d -1", g.nsnap-1)
+				g.add("cclose 2")
+				g.add("gcidle")
+				// the survivor, driven through a write transaction on its own table that is aborted
+				g.add("wtxn m")
+				g.add("ins m %s 9 0 - - 0 9", hx([]byte("k9")))
+				g.add("next 1 w -1")
+				g.add("abort")
+				g.add("wtxn m")
+				g.add("del m %s", hx([]byte("k1")))
+				g.add("commit")
+				g.nsnap++
+				g.add("gcidle")
+				g.add("glen - m")
+				g.add("rtxn")
+				g.nsnap++
+				g.add("next 1 s%d -1", g.nsnap-1)
+				g.add("next 1 s%d -1", g.nsnap-1)
+				// one more deletion stays unobserved while the last iterator is closed
+				g.add("wtxn m")
+				g.add("del m %s", hx([]byte("k2")))
+				g.add("commit")
+				g.nsnap++
+				g.add("cclose 1")
+				g.add("rtxn")
+				g.nsnap++
+				g.add("inited s%d m", g.nsnap-1)
+				g.add("gcidle")
+				g.add("inited - m")
+				g.add("wtxn m")
+				g.add("initdone 0")
+				g.add("commit")
+				g.nsnap++
+				g.add("inited - m")
+				g.add("glen - m")
+				emit("table iterators-created-and-closed", true, g.ops)
+				continue
+			}
 			if c%40 == 5 {
 				// Close() of one iterator overlapping a transaction that registers another one: the
 				// registration committed meanwhile survives, later deletions are retained for it
